@@ -3,6 +3,7 @@
 package k8s
 
 import (
+	"context"
 	"fmt"
 
 	"github.com/nginx/kubernetes-ingress/internal/configs"
@@ -10,6 +11,7 @@ import (
 	conf_v1 "github.com/nginx/kubernetes-ingress/pkg/apis/configuration/v1"
 	"github.com/nginx/kubernetes-ingress/pkg/apis/configuration/validation"
 	fake_v1 "github.com/nginx/kubernetes-ingress/pkg/client/clientset/versioned/fake"
+	api_v1 "k8s.io/api/core/v1"
 	meta_v1 "k8s.io/apimachinery/pkg/apis/meta/v1"
 	"k8s.io/client-go/kubernetes/fake"
 	"k8s.io/client-go/tools/cache"
@@ -27,8 +29,30 @@ type VerifC12 struct {
 // VerifC12ConfigMapKey is the key of the watched NGINX ConfigMap.
 const VerifC12ConfigMapKey = "nginx-ingress/nginx-config"
 
+// VerifC12MGMTConfigMapKey is the key of the watched MGMT ConfigMap (NGINX Plus).
+const VerifC12MGMTConfigMapKey = "nginx-ingress/nginx-config-mgmt"
+
+// VerifC12Opts are the command-line choices of the controller under test.
+type VerifC12Opts struct {
+	Plus, DynWeights    bool
+	Listeners           []conf_v1.Listener
+	DefaultServerSecret string // ns/name
+	WildcardTLSSecret   string // ns/name
+	ExternalServiceName string // the controller's own Service (namespace nginx-ingress)
+}
+
 // VerifC12New builds the controller through NewLoadBalancerController.
 func VerifC12New(cnf *configs.Configurator, plus, dynWeights bool, listeners []conf_v1.Listener) (*VerifC12, error) {
+	return VerifC12NewOpts(cnf, VerifC12Opts{Plus: plus, DynWeights: dynWeights, Listeners: listeners})
+}
+
+// VerifC12NewOpts builds the controller through NewLoadBalancerController.
+func VerifC12NewOpts(cnf *configs.Configurator, o VerifC12Opts) (*VerifC12, error) {
+	plus, dynWeights, listeners := o.Plus, o.DynWeights, o.Listeners
+	mgmt := ""
+	if plus {
+		mgmt = VerifC12MGMTConfigMapKey
+	}
 	rec := record.NewFakeRecorder(1 << 14)
 	lbc := NewLoadBalancerController(NewLoadBalancerControllerInput{
 		KubeClient:                   fake.NewSimpleClientset(),
@@ -47,6 +71,11 @@ func VerifC12New(cnf *configs.Configurator, plus, dynWeights bool, listeners []c
 		TransportServerValidator:     validation.NewTransportServerValidator(false, false, plus),
 		VirtualServerValidator:       validation.NewVirtualServerValidator(validation.IsPlus(plus)),
 		ConfigMaps:                   VerifC12ConfigMapKey,
+		MGMTConfigMap:                mgmt,
+		DefaultServerSecret:          o.DefaultServerSecret,
+		WildcardTLSSecret:            o.WildcardTLSSecret,
+		ExternalServiceName:          o.ExternalServiceName,
+		Pod:                          &api_v1.Pod{ObjectMeta: meta_v1.ObjectMeta{Name: "nic-pod", Namespace: "nginx-ingress"}},
 		DynamicWeightChangesReload:   dynWeights,
 	})
 	gc := &conf_v1.GlobalConfiguration{
@@ -74,6 +103,13 @@ func (v *VerifC12) store(kind string) (cache.Store, kind, error) {
 		return nsi.svcLister, service, nil
 	case "configmap":
 		return v.lbc.configMapLister.Store, configMap, nil
+	case "mgmtconfigmap":
+		if v.lbc.mgmtConfigMapLister.Store == nil {
+			return nil, 0, fmt.Errorf("no MGMT ConfigMap is watched (not NGINX Plus)")
+		}
+		return v.lbc.mgmtConfigMapLister.Store, configMap, nil
+	case "secret":
+		return nsi.secretLister, secret, nil
 	}
 	return nil, 0, fmt.Errorf("unknown kind %q", kind)
 }
@@ -127,6 +163,18 @@ func (v *VerifC12) Sync(kind, key string, qlen int) ([]string, error) {
 			return evs, nil
 		}
 	}
+}
+
+// PutClientSecret creates or replaces a Secret in the (fake) API server: updateAllConfigs reads the MGMT
+// secrets through the client, not through the lister.
+func (v *VerifC12) PutClientSecret(s *api_v1.Secret) error {
+	c := v.lbc.client.CoreV1().Secrets(s.Namespace)
+	if _, err := c.Get(context.TODO(), s.Name, meta_v1.GetOptions{}); err != nil {
+		_, err = c.Create(context.TODO(), s, meta_v1.CreateOptions{})
+		return err
+	}
+	_, err := c.Update(context.TODO(), s, meta_v1.UpdateOptions{})
+	return err
 }
 
 // Flags reads the batch and start-up state of the controller.
